@@ -955,6 +955,13 @@ def errors(source, model, wcshelper):
     else:
         source.err_a = source.err_b = ERR_MASK
 
+    # errors that can not be expressed on the sky (eg. a large pixel error
+    # puts the offset position outside of the projection) are not available
+    for err in ['err_peak_flux', 'err_ra', 'err_dec',
+                'err_a', 'err_b', 'err_pa']:
+        if not np.isfinite(getattr(source, err)):
+            setattr(source, err, ERR_MASK)
+
     sqerr = 0
     sqerr += (source.err_peak_flux /
               source.peak_flux) ** 2 if source.err_peak_flux > 0 else 0
@@ -1096,6 +1103,13 @@ def new_errors(source, model, wcshelper):  # pragma: no cover
                            offset[1])/0.1*err_sy * 3600
     else:
         source.err_a = source.err_b = ERR_MASK
+    # errors that can not be expressed on the sky (eg. a large pixel error
+    # puts the offset position outside of the projection) are not available
+    for err in ['err_peak_flux', 'err_ra', 'err_dec',
+                'err_a', 'err_b', 'err_pa']:
+        if not np.isfinite(getattr(source, err)):
+            setattr(source, err, ERR_MASK)
+
     sqerr = 0
     sqerr += (source.err_peak_flux /
               source.peak_flux) ** 2 if source.err_peak_flux > 0 else 0
